@@ -817,7 +817,7 @@ where
             // When parser returns Ok(None) we should return the original arguments so if there's
             // anything left unconsumed - this won't be lost.
 
-            let missing = matches!(err, Message::Missing(_));
+            let missing = matches!(err, Message::Missing(_) | Message::NoEnv(_));
 
             if catch || (missing && orig_args.len() == args.len()) || (!missing && err.can_catch())
             {
